@@ -12,6 +12,7 @@ import (
 	"sort"
 	"strings"
 	"sync"
+	"sync/atomic"
 	"time"
 
 	"golang.org/x/tools/go/ssa"
@@ -301,7 +302,28 @@ func runHarness(L *Loaded, o RunOpts, h *HarnessCfg, fn *ssa.Function) (*harness
 			}(ci, k)
 		}
 	}
+	stopTick := make(chan struct{})
+	go func() {
+		t := time.NewTicker(30 * time.Second)
+		defer t.Stop()
+		for {
+			select {
+			case <-stopTick:
+				return
+			case <-t.C:
+				pending := 0
+				for _, l := range lists {
+					l.mu.Lock()
+					pending += len(l.items)
+					l.mu.Unlock()
+				}
+				fmt.Fprintf(os.Stderr, "  ... %s: %d paths started, %d queued, %.0fs\n", h.Func, atomic.LoadInt64(&progressPaths), pending, time.Since(start).Seconds())
+			}
+		}
+	}()
 	wg.Wait()
+	close(stopTick)
+	atomic.StoreInt64(&progressPaths, 0)
 	jr.Wall = time.Since(start)
 	rep := &harnessReport{Name: h.Pkg + "." + h.Func, About: h.About, Cases: cases, Paths: jr.Paths, Completed: jr.Completed,
 		Infeasible: jr.Infeasible, Branches: jr.Branches, Obligations: jr.Obligations, Discharged: jr.Discharged,
@@ -374,22 +396,36 @@ func overlayJSON(o RunOpts, L *Loaded) (string, error) {
 			return nil
 		}
 		var np struct {
-			File   string `json:"file"`
-			After  string `json:"after"`
-			Insert string `json:"insert"`
+			File    string `json:"file"`
+			After   string `json:"after"`
+			Insert  string `json:"insert"`
+			Replace string `json:"replace"`
+			With    string `json:"with"`
 		}
 		if json.Unmarshal(raw, &np) != nil {
 			return nil
 		}
-		src, err := os.ReadFile(filepath.Join(o.RepoDir, np.File))
+		srcPath := filepath.Join(o.RepoDir, np.File)
+		if prev, ok := m.Replace[srcPath]; ok {
+			srcPath = prev // several patches on one file compose
+		}
+		src, err := os.ReadFile(srcPath)
 		if err != nil {
 			return nil
 		}
-		i := strings.Index(string(src), np.After)
-		if i < 0 {
-			return nil // the anchor is gone: the replay will fail to build its seam and be reported
+		var out string
+		if np.Replace != "" {
+			if !strings.Contains(string(src), np.Replace) {
+				return nil
+			}
+			out = strings.Replace(string(src), np.Replace, np.With, -1)
+		} else {
+			i := strings.Index(string(src), np.After)
+			if i < 0 {
+				return nil // the anchor is gone: the replay will fail to build its seam and be reported
+			}
+			out = string(src[:i+len(np.After)]) + np.Insert + string(src[i+len(np.After):])
 		}
-		out := string(src[:i+len(np.After)]) + np.Insert + string(src[i+len(np.After):])
 		dst := filepath.Join(dir, "patched", np.File)
 		os.MkdirAll(filepath.Dir(dst), 0o755)
 		os.WriteFile(dst, []byte(out), 0o644)
